@@ -1174,10 +1174,13 @@ class ConcreteCtx:
         return qconst(Fraction(math.sqrt(c)))
 
     def exp(self, q):
+        self.exp_args = getattr(self, "exp_args", {})
         if self.mode == "float":
-            return math.exp(q)
-        q = _num(q)
-        return qconst(Fraction(math.exp(float(q.const()))))
+            v = math.exp(q)
+        else:
+            v = qconst(Fraction(math.exp(float(_num(q).const()))))
+        self.exp_args[len(self.exp_args)] = (q, v)
+        return v
 
     def rint(self, q, name=None):
         if self.mode == "float":
